@@ -13,6 +13,8 @@ import JPV.Impl.Api
 import JPV.Impl.Cli
 import JPV.Impl.NonDet
 import JPV.Spec.NonDet
+import JPV.Spec.IRegexp
+import JPV.Impl.Regex
 namespace JPV.Driver
 open JPV.Wire
 
@@ -155,6 +157,12 @@ def decScript : Sexp → Option Impl.ND.Script
 def dedup (xs : List String) : List String :=
   xs.foldl (fun acc x => if acc.contains x then acc else acc ++ [x]) []
 
+/-- subject with categories: `q<hex>;` string and a parallel comma-separated list of 2-letter categories -/
+def decSubject (s cats : String) : Option (List Spec.IRe.CChar) := do
+  let cs ← decStr s
+  let ks := if cats = "-" then [] else (cats.splitOn ",").map String.toList
+  if ks.length ≠ cs.length then none else pure (cs.zip ks)
+
 def handle (fields : List String) : String :=
   match fields with
   | ["iter", env, q, doc] =>
@@ -280,6 +288,17 @@ def handle (fields : List String) : String :=
       | some e, some q, some d =>
         "outcomes\t" ++ "\t".intercalate (dedup ((Spec.ND.outcomes e.toSpec q d).map encNodes))
       | _, _, _ => "bad-request"
+  | ["ireg", pat, subj, cats] =>
+      match decStr pat, decSubject subj cats with
+      | some p, some s =>
+        match Spec.IRe.parse p with
+        | none => "invalid"
+        | some r => s!"valid {if Spec.IRe.fullMatch r s then 1 else 0} {if Spec.IRe.searchMatch r s then 1 else 0}"
+      | _, _ => "bad-request"
+  | ["mapre", pat] =>
+      match decStr pat with
+      | some p => "mapre\t" ++ encStr (Impl.mapRe p)
+      | none => "bad-request"
   | ["echo.json", doc] =>
       match decJsonAll doc with
       | some d => encJson d
